@@ -412,6 +412,8 @@ def concdict_method(I, st, ref, name, ca, node):
         return [(st, TupleV([TupleV([StrV(k), v]) for k, v in d.items.items()]))]
     if name == 'keys' and not a:
         return [(st, TupleV([StrV(k) for k in d.items]))]
+    if name == 'values' and not a:
+        return [(st, TupleV(list(d.items.values())))]      # insertion order, as in Python
     raise Unsupported('concdict method %s%r' % (name, a), node)
 
 
@@ -1249,4 +1251,45 @@ def comprehension(I, st, eid, node, kind):
         r = h(I, st, eid, node, kind)
         if r is not None:
             return r
-    raise Unsupported('%s comprehension' % kind, node)
+    return static_comprehension(I, st, eid, node, kind)
+
+
+def static_comprehension(I, st, eid, node, kind):
+    """list / generator comprehension with ONE generator over a sequence of statically known length and no
+    conditions: the element expression is evaluated for each item in a scope of its own (unrolled)"""
+    if kind not in ('list', 'gen') or len(node.generators) != 1 or node.generators[0].ifs or node.generators[0].is_async:
+        raise Unsupported('%s comprehension (only a single unconditional generator over a static sequence is supported)' % kind, node)
+    g = node.generators[0]
+    out = []
+    for (s, it) in I.eval(st, eid, g.iter):
+        if isinstance(it, Exc):
+            out.append((s, it))
+            continue
+        items = I.static_seq(s, it)
+        if items is None:
+            raise Unsupported('%s comprehension over a sequence of unknown length' % kind, node)
+        s = s.fork()
+        ceid = s.new_env(eid)
+        states = [(s, [])]
+        for item in items:
+            nxt = []
+            for (s1, acc) in states:
+                if isinstance(acc, Exc):
+                    nxt.append((s1, acc))
+                    continue
+                for (s2, e2) in I.assign(s1, ceid, g.target, item):
+                    if e2 is not None:
+                        nxt.append((s2, e2))
+                        continue
+                    for (s3, v) in I.eval(s2, ceid, node.elt):
+                        nxt.append((s3, v if isinstance(v, Exc) else acc + [v]))
+            states = nxt
+        for (s1, acc) in states:
+            if isinstance(acc, Exc):
+                out.append((s1, acc))
+            elif kind == 'list':
+                s2 = s1.fork()
+                out.append((s2, s2.alloc(ListObj(tuple(acc)))))
+            else:
+                out.append((s1, TupleV(acc)))       # a generator that is consumed once, immediately
+    return out
